@@ -971,6 +971,11 @@ mod imp {
 
     impl Delims {
         fn validated_start_delims(&self) -> Result<Vec<&str>, Error> {
+            // an empty end delimiter can never be found by the lexer
+            if self.variable_end.is_empty() || self.block_end.is_empty() || self.comment_end.is_empty()
+            {
+                return Err(ErrorKind::InvalidDelimiter.into());
+            }
             let mut delims = Vec::with_capacity(5);
             for (delim, required) in [
                 (&self.variable_start, true),
